@@ -9,14 +9,17 @@ From Cloak Require Import Gen.Atomicity.
 Import ListNotations.
 Local Open Scope string_scope.
 
-(* an event: (kind, name); kinds r w addr call go atomic wait *)
+(* an event: (kind, name); kinds r val w set del addr call go atomic wait *)
 Definition ev : Type := (string * string)%type.
 Definition seqb := String.eqb.
 
-Definition is_read (v : string) (e : ev) : bool := seqb (fst e) "r" && seqb (snd e) v.
-(* a store, or the address being taken (it may then be written through the pointer) *)
+(* a read: "r" = indexed / ranged over / measured / receiver of a call / path to a sub-field,
+   "val" = the value itself is handed on (for a map, slice or pointer: an alias is created) *)
+Definition is_read (v : string) (e : ev) : bool := (seqb (fst e) "r" || seqb (fst e) "val") && seqb (snd e) v.
+(* a store ("w" element store, ++, op=, copy into; "set" the whole field is assigned; "del"
+   delete / clear), or the address being taken (it may then be written through the pointer) *)
 Definition is_write (v : string) (e : ev) : bool :=
-  (seqb (fst e) "w" || seqb (fst e) "addr") && seqb (snd e) v.
+  (seqb (fst e) "w" || seqb (fst e) "set" || seqb (fst e) "del" || seqb (fst e) "addr") && seqb (snd e) v.
 Definition is_access (v : string) (e : ev) : bool := is_read v e || is_write v e.
 Definition is_call (c : string) (e : ev) : bool := seqb (fst e) "call" && seqb (snd e) c.
 Definition is_atomic (v : string) (e : ev) : bool := seqb (fst e) "atomic" && seqb (snd e) v.
@@ -151,3 +154,72 @@ Definition no_package_level_buffers (allowed : list string) : bool :=
   forallb (fun v : string * string * string =>
              let '(name, kind, typ) := v in
              negb (buffer_like kind typ) || existsb (seqb name) allowed) package_vars.
+
+(* ---- who removes entries ---- *)
+Definition mem_s (x : string) (l : list string) : bool := existsb (seqb x) l.
+(* an entry can leave the container in field v: delete / clear, the field assigned anew, or
+   its address handed out *)
+Definition is_removal (v : string) (e : ev) : bool :=
+  (seqb (fst e) "del" || seqb (fst e) "set" || seqb (fst e) "addr") && seqb (snd e) v.
+(* in the functions of package pkg, entries of v are removed only by the functions listed,
+   and each of them does remove *)
+Definition removed_only_in (pkg v : string) (allowed : list string) : bool :=
+  forallb (fun fe : string * list ev =>
+             negb (prefix pkg (fst fe)) || mem_s (fst fe) allowed || negb (existsb (is_removal v) (snd fe))) fn_events
+  && forallb (fun f => existsb (is_removal v) (events_of f)) allowed.
+(* the container is never handed on as a value (no alias through which a callee, a local
+   variable or another goroutine could remove or insert) *)
+Definition never_aliased (pkg v : string) : bool :=
+  forallb (fun fe : string * list ev =>
+             negb (prefix pkg (fst fe)) || negb (existsb (fun e : ev => seqb (fst e) "val" && seqb (snd e) v) (snd fe))) fn_events.
+(* every delete / clear in the package is on a struct field (not on a local map that might be
+   an alias, not on something the scanner could not name) *)
+Definition deletes_are_on_fields (pkg : string) : bool :=
+  forallb (fun fe : string * list ev =>
+             negb (prefix pkg (fst fe))
+             || forallb (fun e : ev => negb (seqb (fst e) "del") || negb (prefix "local " (snd e) || prefix "?" (snd e))) (snd fe)) fn_events.
+(* function f touches v only by reading and by element stores (it inserts / overwrites), and does store *)
+Definition only_inserts (f v : string) : bool :=
+  forallb (fun e : ev => negb (seqb (snd e) v) || seqb (fst e) "r" || seqb (fst e) "w") (events_of f)
+  && existsb (fun e : ev => seqb (fst e) "w" && seqb (snd e) v) (events_of f).
+
+(* ---- locks held across a blocking send vs. the receive path ---- *)
+(* call_graph: callees that run before the caller continues, over functions and their bool
+   specialisations; held_calls: (caller, mutex, callee) the mutex may be held while callee runs *)
+Definition succs (k : string) : list string :=
+  flat_map (fun x : string * list string => if seqb (fst x) k then snd x else []) call_graph.
+Definition preds (k : string) : list string :=
+  flat_map (fun x : string * list string => if mem_s k (snd x) then [fst x] else []) call_graph.
+Fixpoint closure (next : string -> list string) (fuel : nat) (seen frontier : list string) : list string :=
+  match fuel with
+  | O => seen
+  | S n => match frontier with
+           | [] => seen
+           | k :: rest => if mem_s k seen then closure next n seen rest
+                          else closure next n (k :: seen) (next k ++ rest)
+           end
+  end.
+(* each step consumes one frontier element; a node's successors are pushed once *)
+Definition graph_fuel : nat := S (length call_graph + length (flat_map (fun x : string * list string => snd x) call_graph)) * 2.
+Definition reachable_from (roots : list string) : list string := closure succs graph_fuel [] roots.
+Definition reaching (targets : list string) : list string := closure preds graph_fuel [] targets.
+(* the functions of the package that hand bytes to a connection: they contain the call [sink] *)
+Definition sinks (pkg sink : string) : list string :=
+  flat_map (fun fe : string * list ev =>
+              if prefix pkg (fst fe) && existsb (is_call sink) (snd fe) then [fst fe] else []) fn_events.
+(* S: the mutexes that may be held while such a function runs (somewhere down the call chain),
+   or around the sink call itself *)
+Definition held_across (pkg sink : string) : list string :=
+  let rs := reaching (sinks pkg sink) in
+  flat_map (fun h : string * string * string =>
+              let '(caller, m, callee) := h in if prefix pkg caller && mem_s callee rs then [m] else []) held_calls
+  ++ flat_map (fun r : string * string * string * nat * list ev =>
+                 let '(f, m, _, _, evs) := r in if prefix pkg f && existsb (is_call sink) evs then [m] else []) regions.
+Definition locks_of (k : string) : list string :=
+  flat_map (fun x : string * list string => if seqb (fst x) k then snd x else []) node_locks
+  ++ flat_map (fun x : string * list string => if seqb (fst x) k then snd x else []) fn_entry.
+(* no function that can run on the path starting at [root] acquires (or is entered holding) a
+   mutex that may be held across the blocking send *)
+Definition path_avoids_send_locks (pkg sink root : string) : bool :=
+  let s := held_across pkg sink in
+  forallb (fun k => forallb (fun m => negb (mem_s m s)) (locks_of k)) (reachable_from [root]).
